@@ -110,25 +110,20 @@ Lemma reach_fold {A} fx (f : state -> A -> state) l :
   (forall s x, Reach fx s -> Reach fx (f s x)) -> forall s, Reach fx s -> Reach fx (fold_left f l s).
 Proof. intros Hf. induction l as [|x r IH]; intros s H; cbn; auto. Qed.
 
-Lemma sender_step_reach fx d h s t s' h' :
-  Reach fx s -> sender_step fx d h s t = Some (s', h') -> Reach fx s'.
+Lemma sender_step_reach fx d h s t s' :
+  Reach fx s -> sender_step fx d h s t = Some s' -> Reach fx s'.
 Proof.
   intros R H. unfold sender_step in H.
   repeat match type of H with
          | context[match ?x with _ => _ end] => destruct x eqn:?; try discriminate
          | context[if ?x then _ else _] => destruct x eqn:?; try discriminate
-         end;
-  match type of H with
-  | option_map _ (step fx s ?a) = _ =>
-      destruct (step fx s a) as [s1|] eqn:E; cbn in H; [|discriminate]; inversion H; subst;
-      eapply reach_step; eauto
-  end.
+         end; eapply reach_step; eauto.
 Qed.
 
 Lemma sender_run_reach fx fuel : forall d h s t, Reach fx s -> Reach fx (sender_run fx fuel d h s t).
 Proof.
   induction fuel as [|f IH]; intros d h s t R; cbn; auto.
-  destruct (sender_step fx d h s t) as [[s' h']|] eqn:E; auto.
+  destruct (sender_step fx d h s t) as [s'|] eqn:E; auto.
   apply IH. eapply sender_step_reach; eauto.
 Qed.
 
@@ -147,12 +142,13 @@ Qed.
 
 Lemma do_macro_reach fx tcp x m : Reach fx (xs x) -> Reach fx (xs (do_macro fx tcp x m)).
 Proof.
-  intros R. destruct m as [p|p|p|t|p|p|p|c|c|c m|c m|c| | |t|c]; cbn [do_macro xs].
+  intros R. destruct m as [p|p|p|p|t|p|p|p|c|c|c m|c m|c| | |t|c]; cbn [do_macro xs].
+  - apply sender_run_reach. now apply attempt_reach.
   - apply sender_run_reach. now apply attempt_reach.
   - apply sender_run_reach. now apply attempt_reach.
   - apply sender_run_reach. now apply attempt_reach.
   - unfold sender_release. destruct (nth_error (senders (xs x)) t) as [[| | | |]|]; auto.
-    apply sender_run_reach. now apply attempt_reach.
+    apply sender_run_reach. now apply tries_reach.
   - destruct (step fx (xs x) (AIncoming p)) as [s1|] eqn:E; cbn [xs]; auto.
     unfold incoming_rest. apply tries_reach. apply attempt_reach. eapply reach_step; eauto.
   - destruct (step fx (xs x) (AIncoming p)) as [s1|] eqn:E; cbn [xs]; auto.
